@@ -1,5 +1,5 @@
 import glob, os, re, subprocess, sys
-BASES=["f5f6197","6f2d858"]; NEW=subprocess.run(["git","-C","/repo","rev-parse","HEAD"],capture_output=True,text=True).stdout.strip()
+BASES=["f5f6197","6f2d858","b4d5c65"]; NEW=subprocess.run(["git","-C","/repo","rev-parse","HEAD"],capture_output=True,text=True).stdout.strip()
 WT="/tmp/rebase_wt"
 subprocess.run(["git","-C","/repo","worktree","remove","--force",WT],capture_output=True)
 subprocess.run(["git","-C","/repo","worktree","add","-q","--detach",WT,BASES[0]],check=True)
@@ -33,6 +33,19 @@ for p in pats:
             s2=re.sub(r"\bgO\.view\((-1|\(-1)", r"gO.reshape(\1", s2)
             s2=re.sub(r"\binput\.view\((-1|\(-1)", r"input.reshape(\1", s2)
         if s2!=s: open(fp,"w").write(s2)
+    # fix a464373: the activation scale buffers take the constructor's dtype / device
+    fp=os.path.join(WT,"optimum/quanto/nn/qmodule.py")
+    L=open(fp).read().split("\n"); out=[]; done="scale_dtype, scale_device = " in "\n".join(L)
+    for l in L:
+        if not done and re.match(r'\s+(for scale_name\b|self\.register_buffer\("input_scale")', l):
+            ind=l[:len(l)-len(l.lstrip())]
+            out.append(ind+"# The scales are created with the dtype and device of the wrapped module parameters")
+            out.append(ind+'scale_dtype, scale_device = kwargs.get("dtype"), kwargs.get("device")')
+            done=True
+        if "register_buffer(" in l and "scale" in l:
+            l=re.sub(r"torch\.ones\((size=)?\(\)\)", lambda m: f"torch.ones({m.group(1) or ''}(), dtype=scale_dtype, device=scale_device)", l)
+        out.append(l)
+    open(fp,"w").write("\n".join(out))
     subprocess.run(["git","-C",WT,"add","-A","-N"],check=True)
     d=subprocess.run(["git","-C",WT,"diff",NEW,"--","."],capture_output=True,text=True).stdout
     open(p,"w").write(d)
